@@ -248,6 +248,17 @@ func Commands() map[string]func() {
 			}
 			os.Exit(st)
 		},
+		// hquitproof FILE: writes its pid, ignores SIGQUIT and exits on SIGINT (a
+		// program that dumps its threads on SIGQUIT and carries on, as a JVM does)
+		"hquitproof": func() {
+			signal.Ignore(syscall.SIGQUIT)
+			c := make(chan os.Signal, 1)
+			signal.Notify(c, syscall.SIGINT)
+			os.WriteFile(os.Args[1]+".tmp", []byte(strconv.Itoa(os.Getpid())), 0o666)
+			os.Rename(os.Args[1]+".tmp", os.Args[1])
+			<-c
+			os.Exit(0)
+		},
 		// hstubborn FILE: writes its pid and ignores SIGINT and SIGQUIT
 		"hstubborn": func() {
 			signal.Ignore(syscall.SIGINT, syscall.SIGQUIT)
